@@ -24,12 +24,13 @@ GCC = shutil.which("gcc")
 
 def make_tree(base):
     root = os.path.join(base, "root")
-    for d in ("root/src/sub", "root/src/inc", "root/src/other", "root/build", "obuild"):
+    for d in ("root/src/sub", "root/src/inc", "root/src/other", "root/build", "obuild", "root/alt/inc"):
         os.makedirs(os.path.join(base, d))
     w = lambda rel, txt: open(os.path.join(base, rel), "w").write(txt)
     w("root/src/sub/f.c", '#include <h.h>\nint f;\n')
     w("root/src/inc/h.h", "int from_inc;\n")
     w("root/src/other/h.h", "int from_other;\n")
+    w("root/alt/inc/h.h", "int from_alt;\n")
     w("root/src/sub/f.o", "\x7fELF")
     w("root/src/sub/unused.c", "int unused;\n")
     return root
@@ -71,6 +72,12 @@ def good_entries(base, root):
                     e["directory"] = d
                 out.append({"name": f"{dn}/{fn}/{iname}", "entry": e, "exp_file": os.path.join(root, "src/sub/f.c"), "exp_inc": [os.path.normpath(idir)],
                             "cwd": da})
+    # the same relative spelling "-I inc" from two different directories must resolve differently
+    for dn, d, idir in (("same-rel-I-from-src", os.path.join(root, "src"), os.path.join(root, "src/inc")), ("same-rel-I-from-alt", "alt", os.path.join(root, "alt/inc"))):
+        da = dir_abs(root, d)
+        f = os.path.relpath(os.path.join(root, "src/sub/f.c"), da)
+        out.append({"name": dn, "entry": {"file": f, "directory": d, "arguments": ["/usr/bin/gcc", "-c", "-I", "inc", f]},
+                    "exp_file": os.path.join(root, "src/sub/f.c"), "exp_inc": [os.path.normpath(idir)], "cwd": da})
     return out
 
 
@@ -80,6 +87,7 @@ def skipped_entries(root):
         {"name": "object-file", "entry": {"file": "src/sub/f.o", "command": "/usr/bin/gcc src/sub/f.o -o f"}, "skip": True},
         {"name": "empty-command", "entry": {"file": "src/sub/f.c", "command": ""}, "skip": True},
         {"name": "empty-arguments", "entry": {"file": "src/sub/f.c", "arguments": []}, "skip": True},
+        {"name": "blank-command", "entry": {"file": "src/sub/f.c", "command": "   "}, "skip": True},
     ]
 
 
@@ -139,7 +147,7 @@ def judge(base, root, entries, with_attr=True):
             want = set()
             for e in good:
                 want.add(os.path.relpath(os.path.join(e["exp_inc"][0], "h.h"), root))
-            for hdr in ("src/inc/h.h", "src/other/h.h"):
+            for hdr in ("src/inc/h.h", "src/other/h.h", "alt/inc/h.h"):
                 if (a.get(hdr, 0) > 0) != (hdr in want):
                     bad.append(("attribution", sorted(want), a))
                     break
@@ -161,7 +169,7 @@ def gcc_confirm(base, root, goods):
         args = e["entry"]["arguments"]
         p = subprocess.run([GCC, "-E", "-P"] + args[2:], cwd=e["cwd"], capture_output=True, text=True)
         seen[key] = p.stdout
-        want = "from_inc" if e["exp_inc"][0].endswith("inc") else "from_other"
+        want = "from_alt" if "/alt/" in e["exp_inc"][0] else "from_inc" if e["exp_inc"][0].endswith("inc") else "from_other"
         if p.returncode != 0 or want not in p.stdout:
             dis.append((e["name"], p.stderr[:200]))
     return len(seen), dis
@@ -216,7 +224,7 @@ def _relx(x, base):
     return json.loads(json.dumps(x, default=str).replace(base, "$BASE"))
 
 
-REPRESENTATIVE = ["absent/rel/rel-separate", "abs-root/abs/abs", "abs-build-inside/rel/rel-attached", "abs-build-outside/abs/rel-other",
+REPRESENTATIVE = ["same-rel-I-from-src", "same-rel-I-from-alt", "absent/rel/rel-separate", "abs-root/abs/abs", "abs-build-inside/rel/rel-attached", "abs-build-outside/abs/rel-other",
                   "rel-build/rel/rel-separate", "rel-dotdot/redundant/rel-dotdot", "rel-dot/dot-rel/rel-dot", "abs-build-outside/rel/rel-attached"]
 
 
@@ -225,7 +233,7 @@ def run(tier):
     tmp = env.fresh_dir("c13probe")
     ngood = len(good_entries(tmp, make_tree(tmp)))
     jobs = [(list(range(i, min(ngood, i + 12))), "single") for i in range(0, ngood, 12)]
-    npool = len(REPRESENTATIVE) + 4
+    npool = len(REPRESENTATIVE) + 5
     maxlen = 2 if tier == "quick" else 3
     seqs = [s for k in range(1, maxlen + 1) for s in itertools.product(range(npool), repeat=k)]
     if tier == "quick":   # seed-selected extension: all triples that start with a seed-chosen pool element
@@ -240,7 +248,7 @@ def run(tier):
     rep.coverage.update({
         "evaluations": sum(r[0] for r in res), "distinct_nontrivial": ngood + len(seqs),
         "rule": "all %d single entries (7 directory spellings x 4 file spellings x 6 -I spellings), and all sequences of <=%d entries over %d representative "
-                "entries + 4 skipped kinds; distinct = distinct databases" % (ngood, maxlen, len(REPRESENTATIVE)),
+                "entries + 5 skipped kinds; distinct = distinct databases" % (ngood, maxlen, len(REPRESENTATIVE)),
         "failing_cases": sum(r[1] for r in res), "single_entries": ngood, "sequences": len(seqs),
         "oracle_gcc": {"available": bool(GCC), "distinct_commands_confirmed": gchk, "disagreements": gdis[:5]},
         "samples": [{"entries": list(REPRESENTATIVE[:2]) + ["missing-file"]}],
